@@ -57,8 +57,16 @@ func vp_C13_verify() {
 	// its callback, or to a name it does not own
 	dest := spec.ServerName(vpChoice("destination", "dest.example", "alias.example", "foreign.example"))
 	fr := NewFederationRequest(method, origin, dest, uri)
+	// the body is ordinary JSON, or JSON whose string holds bytes that are not UTF-8 (genuinely signed as such: the
+	// receiver must refuse it all the same)
+	notUTF8 := false
 	if hasBody {
-		vpAssume(fr.SetContent(map[string]string{"k": vpNondetStringN("body", 2)}) == nil)
+		if vpNondetBool("body_not_utf8") {
+			notUTF8 = true
+			vpAssume(fr.SetContent(spec.RawJSON([]byte("{\"k\":\"\xff\xfe\"}"))) == nil)
+		} else {
+			vpAssume(fr.SetContent(map[string]string{"k": vpNondetStringN("body", 2)}) == nil)
+		}
 	}
 	vpAssume(fr.Sign(origin, "ed25519:k1", ed25519.PrivateKey(privB)) == nil)
 	req, err := fr.HTTPRequest()
@@ -129,7 +137,7 @@ func vp_C13_verify() {
 	if tamper == "other-default-name" {
 		owned = false
 	}
-	vpAssert("verdict", accepted == (tamper == "none" && originValid && owned))
+	vpAssert("verdict", accepted == (tamper == "none" && originValid && owned && !notUTF8))
 	if accepted {
 		vpAssert("reports-method", got.Method() == method)
 		vpAssert("reports-uri", got.RequestURI() == uri)
